@@ -183,9 +183,22 @@ func (c *Conn) Write(p []byte) (int, error) {
 						c.wr.buf = append(c.wr.buf, p[:n]...)
 					}
 				}
-				d := c.wdl.Sub(vsched.Now())
-				if d > 0 {
+				// blocked until the write deadline IN FORCE passes: a deadline moved or cleared meanwhile (SetWriteDeadline /
+				// SetDeadline from another thread) is honoured, as a real socket does; without a deadline the write stays
+				// blocked until the connection is closed
+				for !c.closed {
+					if c.wdl.IsZero() {
+						vsched.Sleep(50 * time.Millisecond)
+						continue
+					}
+					d := c.wdl.Sub(vsched.Now())
+					if d <= 0 {
+						break
+					}
 					vsched.Sleep(d)
+				}
+				if c.closed {
+					werr = ErrClosed
 				}
 				if n > 0 {
 					return n, werr
